@@ -67,6 +67,13 @@ class Harness(LineProc):
                                   preexec_fn=pre)
 
     def run(self, req, timeout=20.0):
+        a = self.run_once(req, timeout)
+        if a.get("outcome") == "timeout":
+            # a loaded machine must not look like a hang: only a request that also exceeds a much longer limit counts
+            a = self.run_once(req, 120.0)
+        return a
+
+    def run_once(self, req, timeout):
         import threading
         res = {}
 
